@@ -406,11 +406,14 @@ func CfgC19() PropCfg {
 	w.PlaceBid, w.ModifyBid, w.Block = 34, 10, 20
 	w.PoorPct = 10
 	w.PerturbPct = 8
+	w.Bidders = 3 // the same few accounts bid in every auction
+	w.AddAllowed = 14
 	return PropCfg{ID: "C19", Weights: w, MinOps: 14, MaxOps: 70, DrivePct: 60,
-		New: func() Monitor { return &monC19{} },
+		New:   func() Monitor { return &monC19{} },
+		PreOp: isolationProbe,
 		NonTrivial: func(h *History) bool {
-			return hasLabel(h, "c19:bidder-active-in->=2-fixed-auctions", "c19:>=2-auctions-settle-in-one-block") || (hasLabel(h, "c19:projection-compared") && hasLabel(h, "c19:op-with->=2-auctions"))
+			return hasLabel(h, "c19:bidder-active-in->=2-fixed-auctions", "c19:>=2-auctions-settle-in-one-block", "c19:isolation-probe-with-bids-elsewhere") || (hasLabel(h, "c19:projection-compared") && hasLabel(h, "c19:op-with->=2-auctions"))
 		},
-		Rule: "K histories with 2..5 concurrent auctions sharing auctioneers, bidders and denominations, including failing operations. Frame: a message/keeper call/donation on auction X leaves every other auction's record, bids, allow-list, instalments, bid counter and three escrow balances bit-identical; a block leaves untouched every auction that has nothing due. Terms: after every step the agreed terms of every auction equal their values at creation, escrow addresses are the derived ones, bid (auction, owner, type) never change, auction ids are 0..n-1, bid ids 1..n per auction, counters match, nothing is removed. Non-interference (metamorphic): the history projected onto one auction (its operations + all blocks + parameter changes, ample funds) runs on a separate branch; accept/reject of its operations and its final records + escrow balances must be identical modulo renaming. Non-trivial = a bidder active in >=2 fixed-price auctions, >=2 auctions settling in one block, or a compared projection with >=2 auctions present.",
+		Rule: "K histories with 2..5 concurrent auctions sharing auctioneers, bidders and denominations, including failing operations. Frame: a message/keeper call/donation on auction X leaves every other auction's record, bids, allow-list, instalments, bid counter and three escrow balances bit-identical; a block leaves untouched every auction that has nothing due. Terms: after every step the agreed terms of every auction equal their values at creation, escrow addresses are the derived ones, bid (auction, owner, type) never change, auction ids are 0..n-1, bid ids 1..n per auction, counters match, nothing is removed. Non-interference (metamorphic): the history projected onto one auction (its operations + all blocks + parameter changes, ample funds) runs on a separate branch; accept/reject of its operations and its final records + escrow balances must be identical modulo renaming. Local non-interference probe: every bid / bid modification by a bidder who holds bids or allow-list entries in other auctions is first executed on two discarded branches, one untouched and one with the bidder's bids and allow-list entries of all other auctions deleted; decision, the target auction's records and escrows, and the bidder's balances must be identical. Non-trivial = such a probe with bids elsewhere, a bidder active in >=2 fixed-price auctions, >=2 auctions settling in one block, or a compared projection with >=2 auctions present.",
 	}
 }
